@@ -1,0 +1,32 @@
+//go:build verif
+
+package goexpression
+
+import (
+	"go/ast"
+	"go/token"
+)
+
+// VerifExtract runs extract with an extractor that ignores the parsed body and answers
+// (start0, end0, fail). called reports whether extract reached the extractor.
+func VerifExtract(content string, start0, end0 int, fail error) (called bool, start, end int, err error) {
+	start, end, err = extract(content, func(body []ast.Stmt) (int, int, error) {
+		called = true
+		return start0, end0, fail
+	})
+	return called, start, end, err
+}
+
+// VerifLatestEnd exposes latestEnd for nodes given by their End() positions.
+func VerifLatestEnd(start int, ends ...int) int {
+	nodes := make([]ast.Node, len(ends))
+	for i, e := range ends {
+		nodes[i] = verifNode(e)
+	}
+	return latestEnd(start, nodes...)
+}
+
+type verifNode int
+
+func (n verifNode) Pos() token.Pos { return token.Pos(n) }
+func (n verifNode) End() token.Pos { return token.Pos(n) }
